@@ -163,6 +163,8 @@ class Inst:
             tr = t.get("trait")
             if tr == "object::Resolve" or n == "primitive::Primitive::resolve":
                 if seg == "get" and len(t.get("targs", [])) >= 2:
+                    # walking from a loaded object to another loaded object is following a reference too
+                    node["follows"].append((b["id"], bi, seg))
                     x = subst(parse_ty(t["targs"][1]), env)
                     r = self.find_impl("object::Object", x, "from_primitive")
                     if r is None:
